@@ -53,8 +53,12 @@ func keyPaths(v any, prefix string, out map[string]bool) {
 var addrClasses = []func(r *rand.Rand) net.IP{
 	func(r *rand.Rand) net.IP { return nil },
 	func(r *rand.Rand) net.IP { return net.IP{} },
-	func(r *rand.Rand) net.IP { return net.IP{byte(1 + r.Intn(220)), byte(r.Intn(256)), byte(r.Intn(256)), byte(1 + r.Intn(254))} },
-	func(r *rand.Rand) net.IP { return net.IPv4(byte(1+r.Intn(220)), byte(r.Intn(256)), byte(r.Intn(256)), byte(1+r.Intn(254))) }, // 16-byte mapped
+	func(r *rand.Rand) net.IP {
+		return net.IP{byte(1 + r.Intn(220)), byte(r.Intn(256)), byte(r.Intn(256)), byte(1 + r.Intn(254))}
+	},
+	func(r *rand.Rand) net.IP {
+		return net.IPv4(byte(1+r.Intn(220)), byte(r.Intn(256)), byte(r.Intn(256)), byte(1+r.Intn(254)))
+	}, // 16-byte mapped
 	func(r *rand.Rand) net.IP {
 		ip := make(net.IP, 16)
 		r.Read(ip)
